@@ -138,7 +138,7 @@ class Stray(Event):
             bounds={"d": "1..3", "idle_timeout": "1..3 (thorough 4)", "stray event instant": "0..d"})
 def ob_unhandled_event_during_retry_vs_idle(d: int, it: int, at: int) -> bool:
     """
-    pre: 1 <= d <= DMAX and 1 <= it <= ITMAX and 0 <= at <= d
+    pre: 1 <= d <= 3 and 1 <= it <= ITMAX and 0 <= at <= d
     post: _
     """
     d, it, at = conc(d, 1, 3), conc(it, 1, 4), conc(at, 0, 3)
